@@ -20,7 +20,7 @@ ASSUME = [
 
 def run(tier):
     if tier == "quick":
-        plan = [dict(variant="asan", runs=640, label="asan", args=["--maxexec", "400"], timeout=280), dict(variant="plain", runs=8000, label="plain", args=["--maxexec", "600"], timeout=280)]
+        plan = [dict(variant="asan", runs=480, label="asan", args=["--maxexec", "400"], timeout=280), dict(variant="plain", runs=6000, label="plain", args=["--maxexec", "600"], timeout=280)]
     else:
         plan = [dict(variant="asan", runs=160000, label="asan", args=["--maxexec", "2500"], timeout=3400), dict(variant="plain", runs=800000, label="plain", args=["--maxexec", "2500"], timeout=3400)]
     return nat.run_native("C50", tier, "c50.cc", plan, "fault_enumeration", RULE, ASSUME, nops=0, nmodel=80, engine="faultsim")
